@@ -258,6 +258,9 @@ func classify(c *Case) (bool, []string) {
 	add(o.cropMixed, "cropbox-absent-beside-present")
 	add(o.distinctAttr, "attrs-distinct")
 	add(o.mediaAbsent, "mediabox-absent")
+	add(o.nearEqual, "near-equal-boxes-under-one-parent")
+	add(o.nearEqualTyped, "near-equal-typed-boxes-under-one-parent")
+	add(o.rot360, "rotate-360-or-negative")
 	add(o.cbTotal > 0, "callbacks")
 	add(o.cbMinus > 0, "callback-minus-one")
 	add(o.cbDeferred > 0, "callback-deferred")
@@ -327,3 +330,86 @@ func init() {
 func TestActions(t *testing.T) { actionsProp.Run(t, vt.NewStats(property, "actions")) }
 
 func TestBulk(t *testing.T) { bulkProp.Run(t, vt.NewStats(property, "bulk")) }
+
+// ---------------------------------------------------------------------------
+// attrs job: near-equal attribute values
+
+// genAttrs draws short histories whose pages carry clusters of near-equal
+// boxes (a base box and perturbations of 1e-6 ... 0.01 of one coordinate),
+// mostly on typed pages (page.Page with *pdf.Rectangle values), and /Rotate
+// values 360 and -90 next to 0 and 270 on raw dictionaries.
+func genAttrs(t *rapid.T) Case {
+	var c Case
+	c.Version = rapid.SampledFrom([]int{1, 1, 1, 2, 3}).Draw(t, "version")
+	c.Human = rapid.Bool().Draw(t, "human")
+	g := &genState{parent: []int{-1}, closed: []bool{false}}
+	nAct := rapid.IntRange(1, 12).Draw(t, "nact")
+	nearAttr := func(label string) Attr {
+		a := drawAttr(t, label)
+		a.API = rapid.SampledFrom([]int{0, 1, 1, 2, 2}).Draw(t, label+"api2")
+		a.MediaD = rapid.IntRange(0, len(boxDeltas)-1).Draw(t, label+"media-d")
+		if a.Crop > 0 {
+			a.CropD = rapid.IntRange(0, len(boxDeltas)-1).Draw(t, label+"crop-d")
+		}
+		if a.API == 0 && rapid.IntRange(0, 3).Draw(t, label+"rot360") == 3 {
+			a.Rot = rapid.SampledFrom([]int{5, 6}).Draw(t, label+"rot")
+		}
+		return a
+	}
+	for i := 0; i < nAct; i++ {
+		switch rapid.SampledFrom([]string{"append", "append", "append", "append", "range", "close", "next"}).Draw(t, "op") {
+		case "append":
+			n := rapid.SampledFrom([]int{1, 2, 2, 3, 5, 8, 15, 16, 17, 33, 40}).Draw(t, "n")
+			a := Action{Op: "append", W: pick(t, "w", g.open()), N: n, Attr: nearAttr("")}
+			if n > 1 {
+				a.Pattern = rapid.SampledFrom([]int{0, 1, 3, 3, 3}).Draw(t, "pattern")
+				switch a.Pattern {
+				case 1:
+					a.Period = rapid.SampledFrom([]int{2, 3, 4, 5, 8, 16}).Draw(t, "period")
+					a.Alt = a.Attr
+					a.Alt.MediaD = rapid.IntRange(0, len(boxDeltas)-1).Draw(t, "alt-media-d")
+					if a.Alt.Crop > 0 {
+						a.Alt.CropD = rapid.IntRange(0, len(boxDeltas)-1).Draw(t, "alt-crop-d")
+					}
+				case 3:
+					a.Seed = rapid.Uint64().Draw(t, "seed")
+				}
+			}
+			c.Actions = append(c.Actions, a)
+			g.pages += n
+		case "range":
+			if len(g.parent) >= 6 {
+				continue
+			}
+			w := pick(t, "w", g.open())
+			c.Actions = append(c.Actions, Action{Op: "range", W: w})
+			g.newRange(w)
+		case "close":
+			cand := g.openNonRoot()
+			if len(cand) == 0 {
+				continue
+			}
+			w := rapid.SampledFrom(cand).Draw(t, "w")
+			c.Actions = append(c.Actions, Action{Op: "close", W: w})
+			g.close(w)
+		case "next":
+			c.Actions = append(c.Actions, Action{Op: "next", W: pick(t, "w", g.open())})
+		}
+	}
+	if g.pages == 0 {
+		c.Actions = append(c.Actions, Action{Op: "append", W: 0, N: 3, Attr: nearAttr("last-"), Pattern: 3, Seed: 1})
+	}
+	return c
+}
+
+// attrsProp shares kind and check with actionsProp (the registered replayer).
+var attrsProp = &vt.Prop[Case]{
+	Property: property,
+	Kind:     "c16-actions",
+	Gen:      genAttrs,
+	Check:    checkCase,
+	Classify: classify,
+	Render:   render,
+}
+
+func TestAttrs(t *testing.T) { attrsProp.Run(t, vt.NewStats(property, "attrs")) }
